@@ -124,6 +124,36 @@ def fam_events(rng, n, thorough=False):
         steps.append({"op": "quiesce", "ms": 300})
         out.append({"name": "events/noise_longer_than_idle_timeout_%s" % kind, "conf": conf(idle_ms=300, idle_active=[[0, 1]]),
                     "endpoints": [{"kind": kind}], "steps": steps})
+    # every sender has its own clock: a keyed node hears two senders whose clocks are 30 s apart, on two channels at the same
+    # time and on one endpoint one after the other - every correctly signed frame of both is an event (the replay window
+    # belongs to a link of a sender, it is not a property of the node)
+    for kind in ["custom", "tcp_server", "tcp_server_one_after_the_other"]:
+        t = Tags(950000 + 1000 * len(out))
+        if kind == "custom":
+            steps = opens(2)
+            for j in range(6):
+                steps.append(feed(0, "valid", t.next(), sys=42))
+                steps.append(feed(1, "valid", t.next(), sys=43, ts_back_s=30))
+                steps.append({"op": "sleep", "ms": 5})
+            eps = customs(2)
+        elif kind == "tcp_server":
+            steps = [{"op": "peer_connect", "ep": 0, "peer": 1}, {"op": "peer_connect", "ep": 0, "peer": 2}]
+            for j in range(6):
+                steps.append(feed(0, "valid", t.next(), peer=1, sys=42))
+                steps.append(feed(0, "valid", t.next(), peer=2, sys=43, ts_back_s=30))
+                steps.append({"op": "sleep", "ms": 5})
+            eps = [{"kind": "tcp_server"}]
+        else:
+            steps = [{"op": "peer_connect", "ep": 0, "peer": 1}]
+            for j in range(4):
+                steps.append(feed(0, "valid", t.next(), peer=1, sys=42))
+            steps += [{"op": "wait_open", "ep": 0, "n": 1}, {"op": "quiesce", "ms": 100}, {"op": "read_err", "ep": 0, "peer": 1},
+                      {"op": "wait_close", "ep": 0, "n": 1}, {"op": "peer_connect", "ep": 0, "peer": 2}]
+            for j in range(4):
+                steps.append(feed(0, "valid", t.next(), peer=2, sys=43, ts_back_s=30))
+            eps = [{"kind": "tcp_server"}]
+        steps.append({"op": "quiesce", "ms": 300})
+        out.append({"name": "events/sender_clocks_30s_apart_%s" % kind, "conf": conf(inkey=KEY), "endpoints": eps, "steps": steps})
     return out
 
 
@@ -277,7 +307,7 @@ def fam_fanout(rng, n, thorough=False):
                     "endpoints": [{"kind": kind}], "steps": steps})
     # a backlog behind a transport write that fails (plain error, deadline exceeded, a net timeout, unexpected EOF, closed pipe),
     # then the transport works again: what reaches the wire is still in submission order
-    for j, err in enumerate(["", "deadline", "net_timeout", "eof", "closed_pipe"]):
+    for j, err in enumerate(["", "deadline", "net_timeout", "eof", "closed_pipe", "net_error", "conn_refused"]):
         t = Tags(19000 + 100 * j)
         steps = opens(2) + [{"op": "twrite_mode", "ep": 0, "mode": "block", "at": 2}]
         for w in range(12):
@@ -419,6 +449,18 @@ def fam_close(rng, n):
         steps += [{"op": "sleep", "ms": 10}, {"op": "close", "from": "main"}, {"op": "wait_closed"}]
         out.append({"name": "close/initialize_retried_on_the_same_node_%s" % ("stopped" if stopped else "running"),
                     "conf": conf(retry_init=True), "endpoints": customs(2) + [{"kind": "tcp_server"}], "steps": steps})
+    # a second life: after Close the same Node value is initialized once more (same addresses) and closed again. Nothing is
+    # claimed if the library refuses the second Initialize; if it accepts it, this is a node like any other
+    for j, stopped in enumerate((False, True)):
+        t = Tags(49700)
+        eps = [{"kind": "tcp_server"}, {"kind": "udp_server"}] + ([{"kind": "custom"}] if stopped else [])
+        steps = [{"op": "peer_connect", "ep": 0, "peer": 1}, feed(0, "valid", t.next(), peer=1), {"op": "wait_open", "ep": 0, "n": 1},
+                 write(1, "MsgAll", t.next(), sync=True), {"op": "quiesce", "ms": 100}]
+        if stopped:
+            steps.append({"op": "consumer", "run": False})
+        steps += [{"op": "close", "from": "main"}, {"op": "wait_closed"}]
+        out.append({"name": "close/second_life_of_a_node_value_%s" % ("stopped" if stopped else "running"),
+                    "conf": conf(second_life=True), "endpoints": eps, "steps": steps})
     for mode in ["accept", "refuse", "stall"]:
         steps = [{"op": "sleep", "ms": 30}]
         if mode == "refuse":
@@ -458,14 +500,17 @@ def fam_stall(rng, positions):
         out.append({"name": "stall/block_at_%d" % k, "conf": conf(), "endpoints": customs(3), "steps": steps})
         # (b) transport write fails at the k-th call
         t = Tags(63000 + 300 * k)
-        steps = opens(2) + [{"op": "twrite_mode", "ep": 0, "mode": "fail", "at": k}]
+        # (a plain error, then errors of the network stack that are not timeouts: no buffer space, a pending ICMP "port
+        # unreachable" reported once to the next system call - the transport works again afterwards)
+        werr = ["net_error", "conn_refused", "", "net_timeout"][list(positions).index(k) % 4]
+        steps = opens(2) + [{"op": "twrite_mode", "ep": 0, "mode": "fail", "at": k, "err": werr}]
         for j in range(k + 3):
             steps.append(write(1, "MsgAll", t.next(), sync=True))
         steps += [{"op": "sleep", "ms": 100}]
         for j in range(5):
             steps.append(write(1, "MsgAll", t.next(), sync=True))
         steps += [{"op": "quiesce", "ms": 1500}]
-        out.append({"name": "stall/fail_at_%d" % k, "conf": conf(), "endpoints": customs(2), "steps": steps})
+        out.append({"name": "stall/fail_at_%d_%s" % (k, werr or "plain"), "conf": conf(), "endpoints": customs(2), "steps": steps})
         # (c) the failing write reports that part of the frame was taken (0 < n < len), then the transport works again
         t = Tags(64500 + 300 * k)
         steps = opens(2) + [{"op": "twrite_mode", "ep": 0, "mode": "fail_partial", "at": k}]
@@ -679,6 +724,18 @@ def fam_faults(rng, thorough=False):
         steps.append({"op": "quiesce", "ms": 150})
         out.append({"name": "faults/active_with_stalled_consumer_%s" % kind,
                     "conf": conf(idle_ms=idle, reconnect_ms=100, idle_active=[[0, 1]]), "endpoints": [{"kind": kind}], "steps": steps})
+    # a peer that keeps sending (one frame every 100 ms) but never reads, while the application writes far more than the
+    # socket buffers take for 2.5 s: writes time out (300 ms) one after the other, which is the writer's business - the
+    # channel keeps receiving and is not closed
+    t = Tags(77500)
+    steps = [{"op": "peer_connect", "ep": 0, "peer": 1, "noread": True}, feed(0, "valid", t.next(), peer=1), {"op": "wait_open", "ep": 0, "n": 1},
+             {"op": "flood", "g": 1, "ms": 2500}]
+    for j in range(40):
+        steps.append(feed(0, "valid", t.next(), peer=1))
+        steps.append({"op": "sleep", "ms": 100})
+    steps.append({"op": "quiesce", "ms": 150})
+    out.append({"name": "faults/active_peer_that_never_reads_tcp_server",
+                "conf": conf(idle_ms=1000, write_ms=300, reconnect_ms=100, idle_active=[[0, 1]]), "endpoints": [{"kind": "tcp_server"}], "steps": steps})
     # server: every peer its own channel, keeps accepting after faults (see fam_events_server), idle expiry
     for kind in ["tcp_server", "udp_server"]:
         t = Tags(76000)
@@ -749,6 +806,20 @@ def fam_auto(rng, n, thorough=False):
     steps += [{"op": "quiesce", "ms": 1500}, feed(0, "hb", t.next(), sys=1, comp=1, autopilot=3), {"op": "sleep", "ms": 100},
                         feed(0, "hb", t.next(), sys=7, comp=3, autopilot=3), {"op": "quiesce", "ms": 800}]
     out.append({"name": "auto/sr_many_senders", "conf": conf(sr_enable=True), "endpoints": customs(1), "steps": steps})
+    # the cleaner and the readers meet: 4 channels x 450 senders heard at 0.3 s are all heard again in one dense burst that
+    # starts 40 ms before the cleaner's tick at 60 s and lasts for about 100 ms (their entries are then 59.7 s old: the burst is due, and the cleaner
+    # finds them expired), and once more at 62 s, which must trigger nothing. The wire is muted (1800 x 7 requests at once
+    # may overflow the queues): judged on the stream-requested events - 2 per sender, never 3
+    t = Tags(97000)
+    per = 450
+    senders = [(ep, 1 + (ep * per + i) // 250, 1 + (ep * per + i) % 250) for ep in range(4) for i in range(per)]
+    steps = opens(4)
+    for at in (300, 59960, 62000):
+        steps.append({"op": "burst", "at_ms": at,
+                      "items": [{"ep": ep, "item": {"kind": "hb", "tag": t.next(), "sys": sy, "comp": co, "autopilot": 3}} for ep, sy, co in senders]})
+        steps.append({"op": "quiesce", "ms": 500})
+    out.append({"name": "auto/sr_due_heartbeats_across_a_cleaner_tick", "conf": conf(sr_enable=True, mute_wire=True, sr_events_only=True),
+                "endpoints": customs(4), "steps": steps})
     # stream requests: histories of heartbeats from many sources interleaved with other traffic
     for j in range(n):
         t = Tags(90000 + 1000 * j)
@@ -898,7 +969,7 @@ def _legacy_some(fam, every=3):
     def wrapped(*a, **kw):
         out = fam(*a, **kw)
         for i, sc in enumerate(out):
-            if i % every == every - 1 and not sc["conf"].get("retry_init") and not any(s["op"] == "hold_at_start" for s in sc["steps"]):
+            if i % every == every - 1 and not sc["conf"].get("retry_init") and not sc["conf"].get("second_life") and not any(s["op"] == "hold_at_start" for s in sc["steps"]):
                 sc["conf"] = dict(sc["conf"], legacy_ctor=True)
         return out
     wrapped.__doc__ = fam.__doc__
